@@ -463,7 +463,8 @@ func newFormat(format string) px.Format {
 }
 
 func simpleFormat(formatChar byte) px.Format {
-	return basicFormat(formatChar, NoString, '[', nil)
+	// No left delimiter. A container that is formatted using a simple format uses its own default delimiters
+	return basicFormat(formatChar, NoString, 0, nil)
 }
 
 func basicFormat(formatChar byte, sep2 string, leftDelimiter byte, containerFormats px.FormatMap) px.Format {
